@@ -92,6 +92,56 @@ class KUnord:
         return f'KUnord({self.v})'
 
 
+class KHook:
+    """key whose __lt__ / __hash__ / __eq__ are observable callbacks (fault and scheduling scenarios only)"""
+    __slots__ = ('v',)
+
+    def __init__(self, v):
+        self.v = v
+
+    def __eq__(self, o):
+        if HOOK is not None:
+            HOOK('key_eq', self)
+        return type(o) is KHook and o.v == self.v
+
+    def __hash__(self):
+        if HOOK is not None:
+            HOOK('key_hash', self)
+        return hash(('KHook', self.v))
+
+    def __lt__(self, o):
+        if HOOK is not None:
+            HOOK('key_lt', self)
+        if type(o) is not KHook:
+            return NotImplemented
+        return self.v < o.v
+
+    def __repr__(self):
+        return f'KHook({self.v})'
+
+
+class MetaHook:
+    """custom-node metadata whose __eq__ / __hash__ / __repr__ are observable callbacks"""
+
+    def __init__(self, v):
+        self.v = v
+
+    def __eq__(self, o):
+        if HOOK is not None:
+            HOOK('meta_eq', self)
+        return type(o) is MetaHook and o.v == self.v
+
+    def __hash__(self):
+        if HOOK is not None:
+            HOOK('meta_hash', self)
+        return hash(('MetaHook', self.v))
+
+    def __repr__(self):
+        if HOOK is not None:
+            HOOK('meta_repr', self)
+        return f'MetaHook({self.v})'
+
+
 KOrd.__module__ = KUnord.__module__ = 'vuniv'
 sys.modules.setdefault('vuniv', sys.modules[__name__])   # so that keys can be pickled by reference   # type-name rank: builtins.float < builtins.int < builtins.str < vuniv.KOrd < vuniv.KUnord
 
@@ -140,6 +190,9 @@ def proj_meta(o):
     return o[1]
 
 
+HOOK = None     # set by the fault / scheduling drivers: called as HOOK(kind, arg) inside every callback the engine makes
+
+
 class _CustomBase:
     CLS = 0
     HASENT = False
@@ -151,6 +204,8 @@ class _CustomBase:
         self.fault = fault
 
     def tree_flatten(self):
+        if HOOK is not None:
+            HOOK('flatten', self)
         if self.fault == 'tuplelen':
             return (self.children,)
         if self.fault == 'childiter':
@@ -165,6 +220,8 @@ class _CustomBase:
 
     @classmethod
     def tree_unflatten(cls, meta, children):
+        if HOOK is not None:
+            HOOK('unflatten', meta)
         n = len(children)
         return cls(children, proj_meta(meta), [[KSTR, i + 1] for i in range(n)] if cls.HASENT else None)
 
@@ -195,6 +252,21 @@ class CC(_CustomBase):      # cls 3: registered in 'a' and 'b' (same behaviour),
 
 class CU(_CustomBase):      # cls 4: never registered -> always a leaf
     CLS = 4
+
+
+class CM(_CustomBase):      # not part of the model universe: metadata with observable __eq__/__hash__/__repr__ (namespace 'm')
+    CLS = 9
+
+    def tree_flatten(self):
+        if HOOK is not None:
+            HOOK('flatten', self)
+        return (tuple(self.children), MetaHook(self.meta))
+
+    @classmethod
+    def tree_unflatten(cls, meta, children):
+        if HOOK is not None:
+            HOOK('unflatten', meta)
+        return cls(children, meta.v)
 
 
 NT2 = namedtuple('NT2', ['x', 'y'])       # cls 11
@@ -262,6 +334,7 @@ def setup_world():
     optree.register_pytree_node_class(CB, namespace='a')
     optree.register_pytree_node_class(CC, namespace='a')
     optree.register_pytree_node_class(CC, namespace='b')
+    optree.register_pytree_node_class(CM, namespace='m')
     _registered = True
 
 
